@@ -21,6 +21,7 @@ package common
 import (
 	"encoding/binary"
 	"fmt"
+	"math"
 	"strings"
 	"sync"
 
@@ -333,6 +334,22 @@ func (bA *BitArray) Update(o *BitArray) {
 	defer bA.mtx.Unlock()
 
 	copy(bA.Elems, o.Elems)
+}
+
+// ValidateBasic checks that the element slice has exactly the number of words the
+// declared number of bits needs. A BitArray decoded from the wire carries Bits and
+// Elems independently, and every index computation relies on them agreeing.
+func (bA *BitArray) ValidateBasic() error {
+	if bA == nil {
+		return nil
+	}
+	if bA.Bits > math.MaxInt32 {
+		return fmt.Errorf("bit array is too big: %d bits", bA.Bits)
+	}
+	if want := int((bA.Bits + 63) / 64); len(bA.Elems) != want {
+		return fmt.Errorf("bit array of %d bits must have %d elements, got %d", bA.Bits, want, len(bA.Elems))
+	}
+	return nil
 }
 
 // ToProto converts BitArray to protobuf
